@@ -7,7 +7,7 @@ use crate::runner::{self, Case, Outcome};
 use crate::util::{Out, Rng, enc_str};
 
 #[derive(Clone, Debug)]
-enum E {
+pub enum E {
     Int(i64), Bool(bool), Str(String), Var(String),
     Neg(Box<E>), Not(Box<E>),
     Arith(&'static str, Box<E>, Box<E>), Cmp(&'static str, Box<E>, Box<E>),
@@ -15,7 +15,7 @@ enum E {
     Len(Box<E>), Index(Box<E>, Box<E>), Call1(String, Box<E>), Call2(String, Box<E>, Box<E>), Paren(Box<E>),
 }
 #[derive(Clone, Debug)]
-enum S {
+pub enum S {
     Let(bool, String, E), Assign(String, E), Aug(String, &'static str, E),
     If(E, Vec<S>, Vec<(E, Vec<S>)>, Option<Vec<S>>),
     While(E, Vec<S>), ForRange(String, E, E, Vec<S>), ForList(String, E, Vec<S>),
@@ -316,4 +316,144 @@ pub fn run(out: &mut Out, tier: &str, seed: u64, _scratch: &str) {
     }
     let _ = std::fs::remove_dir_all("/verif/.build/batch/c01");
     out.meta(&serde_json::json!({"programs": cases.len(), "outcome_histogram": hist}));
+}
+
+// =====================================================================================================================
+// C02: every program that type-checks also builds.  Same generator, plus variants that are borderline or ill-typed,
+// probes for the recorded findings, and multi-file projects with nested module directories.
+// =====================================================================================================================
+
+fn check_verdict(source: &str) -> String {
+    let r = crate::util::catch(|| -> String {
+        let toks = match incan_syntax::lexer::lex(source) { Ok(t) => t, Err(e) => return format!("lex-error {}", e[0].message.replace(' ', "_")) };
+        let ast = match incan_syntax::parser::parse(&toks) { Ok(a) => a, Err(e) => return format!("parse-error {}", e[0].message.replace(' ', "_")) };
+        let mut tc = incan::frontend::typechecker::TypeChecker::new();
+        match tc.check_program(&ast) { Ok(()) => "accept".to_string(), Err(_) => "reject".to_string() }
+    });
+    r.unwrap_or_else(|m| format!("panic {m}"))
+}
+
+const TWIN: &str = "def twin() -> int:\n    mut x_imm = 1\n    x_imm += 1\n    x_imm = x_imm + 1\n    return x_imm\n\n";
+
+/// (name, source): constructs the checker accepts although the generated project does not build.
+pub fn c02_probes() -> Vec<(&'static str, String)> {
+    let p = |body: &str| format!("def main() -> None:\n{body}");
+    vec![
+        ("len-before-less-than", "def f(xs: List[int]) -> bool:\n    return len(xs) < 3\n\ndef main() -> None:\n    print(f([1]))\n".to_string()),
+        ("string-variable-concat", p("    s: str = \"ab\"\n    t: str = \"cd\"\n    v = s + t\n    print(v)\n")),
+        ("string-variable-used-twice", "def f(s: str) -> bool:\n    a = s < \"m\"\n    b = s > \"c\"\n    return a and b\n\ndef main() -> None:\n    print(f(\"k\"))\n".to_string()),
+        ("list-of-string-literals", p("    xs: List[str] = [\"a\", \"b\"]\n    print(len(xs))\n")),
+        ("dict-literal-with-string-keys", p("    d: Dict[str, int] = {\"a\": 1}\n    print(len(d))\n")),
+        ("const-floor-division", "const K: int = 7 // 2\n\ndef main() -> None:\n    print(K)\n".to_string()),
+        ("const-string-index", "const C: str = \"hello\"[1]\n\ndef main() -> None:\n    print(C)\n".to_string()),
+        ("int-float-comparison", "def f(n: int, x: float) -> bool:\n    return n < x\n\ndef main() -> None:\n    print(f(1, 2.5))\n".to_string()),
+        ("pow-literal-base", p("    v = 2 ** 3\n    print(v)\n")),
+        ("tuple-unpack", p("    a, b = (1, 2)\n    print(a + b)\n")),
+        ("tuple-assign-swap", p("    mut xs = [1, 2]\n    xs[0], xs[1] = (xs[1], xs[0])\n    print(xs[0])\n")),
+        ("newtype-named-argument", "type Pos = newtype int\n\ndef main() -> None:\n    p = Pos(n=5)\n    print(1)\n".to_string()),
+        ("derive-eq-with-float-field", "@derive(Eq)\nmodel M:\n    f: float\n\ndef main() -> None:\n    m = M(f=1.5)\n    print(1)\n".to_string()),
+        ("model-key-dict-read", "@derive(Eq, Hash, Clone)\nmodel K:\n    a: int\n\ndef main() -> None:\n    k = K(a=1)\n    mut d: Dict[K, int] = {}\n    d[k] = 10\n    k2 = K(a=1)\n    v = d[k2]\n    print(v)\n".to_string()),
+        ("user-method-named-pop", "class S:\n    n: int\n\n    def pop(self) -> int:\n        return self.n\n\ndef main() -> None:\n    s = S(n=3)\n    v = s.pop()\n    print(v)\n".to_string()),
+        ("match-arms-string-literals", "def f(a: int) -> str:\n    label = match a:\n        0 => \"zero\"\n        _ => \"many\"\n    return label\n\ndef main() -> None:\n    print(f(0))\n".to_string()),
+        ("string-literal-concat-returned", "def f() -> str:\n    return \"a\" + \"b\"\n\ndef main() -> None:\n    print(f())\n".to_string()),
+        ("nested-retype-of-outer-variable", p("    mut x = 1\n    if True:\n        x = \"s\"\n    print(1)\n")),
+        ("append-while-iterating", p("    mut ys = [1, 2]\n    for v in ys:\n        if v > 5:\n            ys.append(v)\n    print(len(ys))\n")),
+        ("derive-partialord-alone", "@derive(PartialOrd)\nmodel M:\n    a: int\n\ndef main() -> None:\n    m = M(a=1)\n    print(1)\n".to_string()),
+        ("type-name-as-value-argument", "type Pos = newtype int\n\ndef show(p: Pos) -> None:\n    print(1)\n\ndef main() -> None:\n    f = Pos\n    show(f)\n".to_string()),
+    ]
+}
+
+/// Variants of a generated body: (tag, extra prelude / edit description applied)
+fn variant(body: &[S], k: u64, r: &mut Rng) -> (&'static str, Vec<S>, bool) {
+    // returns (tag, body, acc_is_mutable)
+    let mut b2: Vec<S> = body.to_vec();
+    match k {
+        1 => ("immutable-acc", b2, false),
+        2 => { let pos = r.below(b2.len() as u64 + 1) as usize; b2.insert(pos, S::If(E::Bool(true), vec![S::Assign("acc".into(), E::Str("s".into()))], vec![], None)); ("nested-retype", b2, true) }
+        3 => { b2.insert(0, S::Assign("acc".into(), E::Str("s".into()))); ("same-block-retype", b2, true) }
+        4 => { let pos = r.below(b2.len() as u64 + 1) as usize; b2.insert(pos, S::Let(false, "zz_new".into(), E::Arith("add", Box::new(E::Var("zz_undefined".into())), Box::new(E::Int(1))))); ("undefined-name", b2, true) }
+        5 => { b2.insert(0, S::If(E::Var("flag".into()), vec![S::Let(true, "acc".into(), E::Int(5)), S::Assign("acc".into(), E::Arith("add", Box::new(E::Var("acc".into())), Box::new(E::Int(1)))), S::Print(E::Var("acc".into()))], vec![], None)); ("shadow-mut-in-block", b2, true) }
+        6 => { b2.insert(0, S::Let(false, "x_imm".into(), E::Int(1))); let pos = 1 + r.below(b2.len() as u64) as usize; b2.insert(pos, S::If(E::Bool(true), vec![S::Aug("x_imm".into(), "add", E::Int(1))], vec![], None)); ("compound-on-immutable-with-twin", b2, true) }
+        7 => { b2.insert(0, S::Let(false, "x_imm".into(), E::Int(1))); b2.insert(1, S::While(E::Bool(false), vec![S::Assign("x_imm".into(), E::Int(2))])); ("assign-immutable-nested-with-twin", b2, true) }
+        8 => { b2.push(S::Ret(E::Bool(true))); ("return-wrong-type", b2, true) }
+        _ => ("well-typed", b2, true),
+    }
+}
+
+pub fn run_c02(out: &mut Out, tier: &str, seed: u64, _scratch: &str) {
+    let mut rng = Rng::new(seed ^ 0x00C0_2C02);
+    let n = if tier == "thorough" { 400 } else { 70 };
+    let arg_sets: Vec<(i64, i64, bool, Vec<i64>)> = vec![(3, 1, true, vec![4, -2, 7])];
+    let mut cases: Vec<Case> = Vec::new();
+    let mut reqs: Vec<String> = Vec::new();
+    for i in 0..n {
+        let mut g = G { r: &mut rng, loop_depth: 0, ctr: 0, over_ys: 0 };
+        let body = g.block(2);
+        let k = if i % 3 == 0 { 0 } else { 1 + rng.below(8) };
+        let (tag, b2, acc_mut) = variant(&body, k, &mut rng);
+        let (mut inc, _py, enc) = program(&b2, &arg_sets);
+        if !acc_mut { inc = inc.replacen("    mut acc = 0\n", "    acc = 0\n", 1); }
+        inc = format!("{TWIN}{inc}");
+        reqs.push(format!("c02 core {tag} {} {enc}", acc_mut as u8));
+        cases.push(Case { name: String::new(), source: inc });
+    }
+    let n_core = cases.len();
+    for (name, src) in c02_probes() {
+        reqs.push(format!("c02 probe {name}"));
+        cases.push(Case { name: String::new(), source: src });
+    }
+    // checker verdicts first (in-process), then one batch build of everything the checker accepts
+    let verdicts: Vec<String> = cases.iter().map(|c| check_verdict(&c.source)).collect();
+    let outs = runner::run_batch("/verif/.build/batch/c02", "/verif/.build/batch-target", &cases);
+    let mut hist: std::collections::BTreeMap<String, u64> = std::collections::BTreeMap::new();
+    for (i, req) in reqs.iter().enumerate() {
+        let build = match &outs[i] {
+            Outcome::Ran { .. } => "built".to_string(),
+            Outcome::RustcError(m) => format!("rustc-error {}", m.replace(' ', "_").chars().take(70).collect::<String>()),
+            Outcome::Rejected(stage, m) => if stage == "check" { "-".to_string() } else { format!("{stage}-error {}", m.replace(' ', "_").chars().take(70).collect::<String>()) },
+            Outcome::Harness(m) => format!("harness {m}"),
+        };
+        let real = if verdicts[i] == "accept" { format!("accept {build}") } else { verdicts[i].clone() };
+        let key = if i < n_core { format!("core:{}", real.split(' ').take(2).collect::<Vec<_>>().join("_")) } else { format!("probe:{}", real.split(' ').take(2).collect::<Vec<_>>().join("_")) };
+        *hist.entry(key).or_insert(0) += 1;
+        out.case(req, &real);
+    }
+    let _ = std::fs::remove_dir_all("/verif/.build/batch/c02");
+    // multi-file projects: nested module directories, several modules per directory
+    let layouts: Vec<Vec<&str>> = vec![
+        vec!["geo/shapes/circle", "geo/shapes/square"],
+        vec!["util", "geo/area"],
+        vec!["a/b/c/deep", "a/b/other", "a/top", "flat"],
+        vec!["pkg/one", "pkg/two", "pkg/three"],
+        vec!["x/y/m1", "x/y/m2", "x/z/m3", "x/z/m4"],
+        vec!["solo"],
+    ];
+    let n_proj = if tier == "thorough" { layouts.len() } else { 3 };
+    for (li, layout) in layouts.iter().enumerate().take(n_proj) {
+        let root = format!("/verif/.build/batch/c02proj{li}");
+        let _ = std::fs::remove_dir_all(&root);
+        let mut main = String::new();
+        let mut calls = Vec::new();
+        let mut expected = 0i64;
+        for (mi, m) in layout.iter().enumerate() {
+            let path = format!("{root}/src/{m}.incn");
+            if let Some(parent) = std::path::Path::new(&path).parent() { std::fs::create_dir_all(parent).expect("mkdir"); }
+            let fname = format!("fn_{}", m.replace('/', "_"));
+            std::fs::write(&path, format!("pub def {fname}(v: int) -> int:\n    return v * {}\n", mi + 2)).expect("write");
+            main.push_str(&format!("from {} import {fname}\n", m.replace('/', "::")));
+            calls.push(format!("{fname}(10)"));
+            expected += 10 * (mi as i64 + 2);
+        }
+        main.push_str(&format!("\ndef main() -> None:\n    println({})\n", calls.join(" + ")));
+        std::fs::create_dir_all(format!("{root}/src")).expect("mkdir");
+        std::fs::write(format!("{root}/src/main.incn"), &main).expect("write");
+        let o = runner::build_project(&format!("{root}/src/main.incn"), &format!("{root}/out"), "/verif/.build/batch-target-proj");
+        let real = match &o {
+            Outcome::Ran { stdout, code: 0, .. } => format!("built {}", stdout.trim()),
+            other => runner::show(other),
+        };
+        out.case(&format!("c02 project {} {expected}", layout.join(",")), &real);
+        let _ = std::fs::remove_dir_all(&root);
+    }
+    out.meta(&serde_json::json!({"core_programs": n_core, "probes": c02_probes().len(), "projects": n_proj, "outcome_histogram": hist}));
 }
